@@ -15,12 +15,16 @@ for d in dirs:
         print(d, 'PATCH DOES NOT APPLY', r.stderr[:200]); continue
     fired = []
     try:
-        for p in props:
-            env = dict(os.environ, PFST_VERIF_NOWRITE='1')
-            rr = subprocess.run(['/venv/bin/python', '/verif/check', p, '--tier', 'quick'], capture_output=True, text=True, env=env)
+        from concurrent.futures import ThreadPoolExecutor
+        env = dict(os.environ, PFST_VERIF_NOWRITE='1', PFST_VERIF_JOBS='4')
+        with ThreadPoolExecutor(12) as ex:
+            results = list(ex.map(lambda p: subprocess.run(['/venv/bin/python', '/verif/check', p, '--tier', 'quick'], capture_output=True,
+                                                           text=True, env=env), props))
+        for p, rr in zip(props, results):
             if rr.returncode == 1:
                 fs = [l for l in rr.stdout.split('\n') if l.startswith('FINDING')]
-                fired.append((p, len(fs), fs[0][:260] if fs else ''))
+                rules = sorted({l.split('rule=')[1].split()[0] for l in fs if 'rule=' in l})
+                fired.append((p, len(fs), ','.join(rules) + ' ' + (fs[0][:220] if fs else '')))
             elif rr.returncode != 0:
                 fired.append((p, -1, 'ANALYSIS-ERROR ' + rr.stdout[-300:].replace('\n', ' | ')))
     finally:
